@@ -138,6 +138,20 @@ theorem C19_tdate (m : String) (f : Nat) (s : Str) (c : Cbor) (h : leaf m (f+1) 
     injection h with h
     exact ⟨t, rfl, h.symm, by simp [showTDate, pad4, pad2], by simp [showTDate, pad4, pad2]⟩
 
+
+/-- … and it DENOTES THE SUPPLIED INSTANT: the emitted UTC date-time is a valid calendar date-time
+whose instant (by the civil-date arithmetic of Spec/Time.lean) equals the supplied local time minus
+the supplied offset — for every accepted input, whatever offset, fraction or month / year boundary
+the conversion crosses; a leap second is represented by the second before. -/
+theorem C19_tdate_same_instant (m : String) (f : Nat) (s : Str) (c : Cbor) (h : leaf m (f+1) "TDate" (.str s) = some c) :
+    ∃ p t, parseRfc3339 s = some p ∧ c = .tag 0 (text (showTDate t)) ∧ dtInstant t = instantOf p ∧
+      ValidDate t.y t.mo t.d ∧ t.h < 24 ∧ t.mi < 60 ∧ t.s < 60 := by
+  obtain ⟨t, ht, hc, _, _⟩ := C19_tdate m f s c h
+  unfold parseTDate at ht
+  obtain ⟨p, hp, hu⟩ := Option.bind_eq_some_iff.mp ht
+  obtain ⟨hi, hv, h1, h2, h3⟩ := toUtc_instant p t (parseRfc3339_valid s p hp) hu
+  exact ⟨p, t, hp, hc, hi, hv, h1, h2, h3⟩
+
 /-- Latin-1 text: accepted exactly when at most 150 CHARACTERS, all in the two printable Latin-1
 ranges, and then emitted unchanged -/
 theorem C19_latin1 (m : String) (f : Nat) (s : Str) (c : Cbor) :
